@@ -123,7 +123,7 @@ Proof.
   rewrite /minor_tensor /is_square /mrows Hl Hc /=.
   have [Hmr Hmc] := @wf_mask F n.+1 m i j Hwf (ltP (ltn_ord i)) (ltP (ltn_ord j)).
   rewrite (det_tensor_correct _ Hmr Hmc); last by lia.
-  by rewrite mx_of_mask.
+  by rewrite Nat.eqb_refl /= mx_of_mask.
 Qed.
 
 (* the routine's result: absent when the determinant is zero, otherwise the inverse matrix *)
@@ -135,21 +135,21 @@ Theorem inverse_tensor_spec n (m : list (list F)) : wf n m -> (1 <= n <= 7)%N ->
      A *m mx_of (fun x y : F => x / y) n X0 = 1%:M /\
      mx_of (fun x y : F => x / y) n X0 *m A = 1%:M).
 Proof.
-  move=> Hwf Hn A. have [Hl Hall] := Hwf.
+  move=> Hwf Hn. have [Hl Hall] := Hwf.
   have Hc : mcols m = n.
-  { rewrite /mcols. case: m Hl Hall {Hwf A} => [|r rs] /=; first by lia.
+  { rewrite /mcols. case: m Hl Hall {Hwf} => [|r rs] /=; first by lia.
     move=> _ Hall. by inversion Hall. }
-  case: n Hwf Hn A Hl Hall Hc => [|[|n]] Hwf Hn A Hl Hall Hc; first by [].
+  case: n Hwf Hn Hl Hall Hc => [|[|n]] Hwf Hn Hl Hall Hc A; first by [].
   - (* 1 x 1 *)
     exists [:: [:: 1 / mget ops m 0 0]]. split; first by split; [|repeat constructor].
-    have HdA : \det A = mget ops m 0 0 by rewrite det_mx11 mxE.
+    have HdA : \det A = mget ops m 0 0 by rewrite det_mx11 /A /mx_of mxE.
     split.
     + rewrite /inverse_tensor /is_square /mrows Hl Hc /= HdA. by case: (_ == 0).
     + rewrite HdA => Hnz.
       have HA : A = (mget ops m 0 0)%:M.
-      { apply/matrixP => i j. by rewrite !ord1 !mxE eqxx mulr1n. }
+      { apply/matrixP => i j. by rewrite /A /mx_of !ord1 !mxE eqxx mulr1n. }
       have HX : mx_of (fun x y : F => x / y) 1 [:: [:: 1 / mget ops m 0 0]] = (1 / mget ops m 0 0)%:M.
-      { apply/matrixP => i j. by rewrite !ord1 !mxE eqxx mulr1n. }
+      { apply/matrixP => i j. by rewrite /mx_of !ord1 !mxE eqxx mulr1n. }
       rewrite HA HX -!scalar_mxM mul1r divff // mulVf //.
   - (* general case *)
     set Xf := fun i j : nat =>
@@ -159,7 +159,7 @@ Proof.
     exists (tab n.+2 Xf). split; first exact: wf_tab.
     have Hdet : det_tensor ops m = Some (\det A) by apply: det_tensor_correct.
     split.
-    + rewrite /inverse_tensor /is_square /mrows Hl Hc /=.
+    + rewrite /inverse_tensor /is_square /mrows Hl Hc Nat.eqb_refl /=.
       case: ifP => [/eqP Hz|Hnz].
       * by rewrite /inverse_general Hdet /= Hz eqxx.
       * rewrite (@inverse_general_tab F ops _ _ m n.+2 (\det A)
@@ -171,7 +171,7 @@ Proof.
       have HA : A \in unitmx by rewrite unitmxE unitfE.
       have -> : mx_of (fun x y : F => x / y) n.+2 (tab n.+2 Xf) = invmx A.
       { rewrite /invmx HA. apply/matrixP => i j.
-        rewrite !mxE mget_tab; [|exact/ltP|exact/ltP]. rewrite /Xf /=.
+        rewrite /mx_of !mxE mget_tab; [|exact/ltP|exact/ltP]. rewrite /Xf /=.
         by rewrite cofactor_sign_sign /cofactor mul1r mulrC !inord_val. }
       by rewrite mulmxV // mulVmx.
 Qed.
